@@ -341,10 +341,110 @@ partial def wireLoop (h : IO.FS.Stream) : IO Unit := do
   | .ok j => IO.println (wireStep j).compress
   wireLoop h
 
+/-! ### HTTP front-end driver -/
+open Xs.Http Xs.Wire in
+def respJ : Resp → Json
+  | .version => Json.mkObj [("status", .num 200), ("kind", .str "version")]
+  | .frame f => Json.mkObj [("status", .num 200), ("kind", .str "frame"), ("frame", frameToJson f)]
+  | .frames sse fs => Json.mkObj [("status", .num 200), ("kind", .str "frames"), ("sse", .bool sse), ("frames", framesJ fs)]
+  | .following sse hist th c t => Json.mkObj [("status", .num 200), ("kind", .str "following"), ("sse", .bool sse),
+      ("frames", framesJ hist), ("threshold", .bool th),
+      ("sub_ctx", match c with | some c => .str (idToHex c) | none => .null),
+      ("topic_filter", match t with | some t => .str (bytesToHex t) | none => .null)]
+  | .content b => Json.mkObj [("status", .num 200), ("kind", .str "content"), ("body_hex", .str (bytesToHex b))]
+  | .hashText h => Json.mkObj [("status", .num 200), ("kind", .str "hash"), ("hash", .str h)]
+  | .noContent => Json.mkObj [("status", .num 204), ("kind", .str "empty")]
+  | .notFound => Json.mkObj [("status", .num 404), ("kind", .str "empty")]
+  | .badRequest => Json.mkObj [("status", .num 400), ("kind", .str "error")]
+
+open Xs.Http Xs.Wire in
+def requestOfJson (j : Json) (now : Nat) : Request :=
+  let target := (optStr j "target").getD "/"
+  let (path, query) := match target.splitOn "?" with
+    | [p] => (p, none)
+    | p :: rest => (p, some ("?".intercalate rest))
+    | [] => ("/", none)
+  let method := match (optStr j "method").getD "GET" with
+    | "GET" => Method.get | "POST" => .post | "DELETE" => .delete | _ => .other
+  let hx := j.getObjVal? "hx" |>.toOption |>.getD .null
+  let xsMeta : MetaIn := match (optStr hx "meta_class").getD "absent" with
+    | "absent" => .absent
+    | "notAscii" => .notAscii
+    | "badBase64" => .badBase64
+    | "badUtf8" => .badUtf8
+    | "badJson" => .badJson
+    | _ => .value ((optStr hx "meta_text").getD "null") ((match hx.getObjVal? "meta_null" with | .ok (.bool b) => b | _ => false))
+  let metaText := optStr hx "meta_text"
+  let importBody : ImportIn := match optStr hx "import_text" with
+    | none => .badJson
+    | some t => match Json.parse t with
+      | .error _ => .badJson
+      | .ok fj =>
+        let hs : HashSpec := ⟨fun _ => (match hx.getObjVal? "hash_valid" with | .ok (.bool b) => b | _ => true)⟩
+        match decodeFrame hs (jOfJson fj) with
+        | .error _ => .badJson
+        | .ok f =>
+          let metaT : Option String := match f.mdata with
+            | some _ => (fj.getObjVal? "meta").toOption.map (·.compress)
+            | none => none
+          .frame { topic := (stringOf f.topic).toUTF8.toList.map (·.toNat), ctx := f.ctx, id := f.id,
+                   hash := f.hash.map stringOf, mdata := metaT, ttl := f.ttl, decodable := metaDecodable metaT }
+  { method := method, path := textOf path, query := query.map textOf,
+    acceptSse := (match hx.getObjVal? "sse" with | .ok (.bool b) => b | _ => false),
+    xsMeta := xsMeta, body := hexToBytes ((optStr j "body_hex").getD ""),
+    bodyHash := (optStr hx "body_hash").getD "", casHash := optStr hx "cas_hash",
+    importBody := importBody, newId := hexToNat ((optStr hx "new_id").getD "0"), now := now,
+    metaDecodable := metaDecodable (match xsMeta with | .value t false => some t | _ => none) }
+
+open Xs.Http in
+partial def httpLoop (h : IO.FS.Stream) (s : Srv) (now : Nat) (i : Nat) : IO Unit := do
+  let line ← h.getLine
+  if line.isEmpty then return ()
+  match Json.parse line with
+  | .error e => IO.println (Json.mkObj [("i", .num i), ("parse-error", .str e)]).compress; httpLoop h s now (i+1)
+  | .ok j =>
+    match j.getObjVal? "case" with
+    | .ok c => IO.println (Json.mkObj [("case", c)]).compress; httpLoop h {} 0 0
+    | _ =>
+      let op := (j.getObjVal? "op").toOption.getD .null
+      let obs := (j.getObjVal? "obs").toOption.getD .null
+      let now : Nat := match optStr op "op", optNat op "now" with
+        | some "clock", some n => n
+        | some "open", some n => n
+        | _, _ => now
+      let (s', m) : Srv × Json := match optStr op "op" with
+        | some "http" =>
+          let (s', r) := handle s (requestOfJson op now)
+          (s', respJ r)
+        | some "http_bg" =>
+          let (s', r) := handle s (requestOfJson op now)
+          (s', respJ r)
+        | some "http_collect" => (s, okJ .null)
+        | some "serve" =>
+          -- `api::serve` appends an `xs.start` frame before it listens
+          let f0 : Frame := { topic := [120, 115, 46, 115, 116, 97, 114, 116], ctx := 0, id := 0, hash := none, mdata := none, ttl := none }
+          let assigned : Nat := match obs.getObjVal? "ok" with
+            | .ok fj => hexToNat ((optStr fj "id").getD "0")
+            | _ => 0
+          (match s.store.append f0 assigned with
+           | .ok (st, f) => ({ s with store := st }, okJ (frameToJson f))
+           | .error e => (s, errJ (errToString e)))
+        | some "cas_has" =>
+          (s, okJ (match casGet s.cas ((optStr op "hash").getD "") with | some b => .str (bytesToHex b) | none => .null))
+        | _ =>
+          let (st, m) := storeStep s.store (op.setObjVal! "now" (.num now)) obs
+          ({ s with store := st }, m)
+      IO.println (Json.mkObj [("i", .num i), ("model", m), ("post", dumpJ s'.store)]).compress
+      let s'' := match j.getObjVal? "dump" with
+        | .ok d => { s' with store := stateOfDump d s'.store }
+        | _ => s'
+      httpLoop h s'' now (i+1)
+
 def main (args : List String) : IO UInt32 := do
   let stdin ← IO.getStdin
   match args with
   | ["store"] => storeLoop stdin State.init 0 0; return 0
   | ["follow"] => followLoop stdin {} 0; return 0
   | ["wire"] => wireLoop stdin; return 0
+  | ["http"] => httpLoop stdin {} 0 0; return 0
   | _ => IO.eprintln "usage: xsdrv store"; return 2
